@@ -27,6 +27,18 @@ func genC04(t *rapid.T) c04Case {
 		c.Cfg.Initial = rapid.SampledFrom([]int{math.MaxInt32 - 1, math.MaxInt32, 1 << 31, 1<<31 + 5, 1 << 40}).Draw(t, "hugeInitial")
 		c.Cfg.IncreaseBy = rapid.SampledFrom([]int{1, 2, 1 << 30, 1 << 31}).Draw(t, "hugeIncr")
 	}
+	if c.Cfg.Algo != "aimd" && rapid.IntRange(0, 7).Draw(t, "hugeFloat") == 0 {
+		// the float-based algorithms with a maximum that means "unbounded" (up to MaxInt64) and estimates up to 2^53,
+		// the largest range in which a float64 estimate is still an exact integer (section 6: initial estimates
+		// beyond 2^53 are a domain decision, the float cannot hold them)
+		c.Cfg.Max = rapid.SampledFrom([]int{math.MaxInt32, 1 << 31, 1 << 40, 1 << 53, math.MaxInt64 - 1024, math.MaxInt64}).Draw(t, "hugeMax")
+		if rapid.Bool().Draw(t, "hugeInit") {
+			c.Cfg.Initial = rapid.SampledFrom([]int{1 << 20, math.MaxInt32, 1 << 31, 1<<31 + 1, 1 << 40, 1<<53 - 1, 1 << 53}).Draw(t, "hugeInitial")
+			if c.Cfg.Initial > c.Cfg.Max {
+				c.Cfg.Initial = c.Cfg.Max
+			}
+		}
+	}
 	if c.Cfg.Algo == "vegas" {
 		c.Cfg.NoLoad = rapid.SampledFrom([]string{"", "", "", "single", "expavg"}).Draw(t, "noload")
 		if rapid.IntRange(0, 2).Draw(t, "customfns") == 0 {
